@@ -221,37 +221,68 @@ pub fn run(ws: &[&str]) -> String {
             }
         })
     };
-    let res = if var.is_sync() {
-        render_result(&req.request(&typed_reply, log_sleep, timeout))
-    } else {
-        // every inner future reports Pending k times first
-        let k = var.k();
-        let http = |r: HttpRequest| Delay { n: k, v: Some(typed_reply(r)) };
-        let sleep = |d: Duration| {
-            log_sleep(d);
-            Delay { n: k, v: Some(()) }
+    // One session = one run of the poll loop; its observation is the outcome plus the ordered
+    // event trace.  The request builder is cloned first: a second session run afterwards from the
+    // clone, against the same scripted server and clock, must give the same observation, and the
+    // device-authorization response the sessions were started from must be untouched by them.
+    let details_before = format!("{}|{:?}|{:?}", serde_json::to_string(&details).unwrap(), details.interval(), details.expires_in());
+    let req2 = req.clone();
+    let mut session = |req: oauth2::DeviceAccessTokenRequest<'_, '_, BasicTokenResponse, oauth2::EmptyExtraDeviceAuthorizationFields>| -> Result<String, String> {
+        // fresh scripted world
+        seq.store(0, std::sync::atomic::Ordering::SeqCst);
+        time_log.lock().unwrap().clear();
+        other_log.borrow_mut().clear();
+        reqs.borrow_mut().clear();
+        *script_pos.borrow_mut() = 0;
+        fail_no.set(0);
+        let res = if var.is_sync() {
+            render_result(&req.request(&typed_reply, log_sleep, timeout))
+        } else {
+            // every inner future reports Pending k times first
+            let k = var.k();
+            let http = |r: HttpRequest| Delay { n: k, v: Some(typed_reply(r)) };
+            let sleep = |d: Duration| {
+                log_sleep(d);
+                Delay { n: k, v: Some(()) }
+            };
+            // a future does nothing until it is polled: no clock reading, request or wait at creation
+            let fut = req.request_async(&http, sleep, timeout);
+            if seq.load(std::sync::atomic::Ordering::SeqCst) != 0 {
+                return Err("eager-future".to_string());
+            }
+            render_result(&var.drive(fut))
         };
-        // a future does nothing until it is polled: no clock reading, request or wait at creation
-        let fut = req.request_async(&http, sleep, timeout);
-        if seq.load(std::sync::atomic::Ordering::SeqCst) != 0 {
-            return "eager-future".to_string();
-        }
-        render_result(&var.drive(fut))
+        let mut all: Vec<(usize, String)> = time_log.lock().unwrap().clone();
+        all.extend(other_log.borrow().iter().cloned());
+        all.sort();
+        let reqs = reqs.borrow();
+        let same = if reqs.is_empty() {
+            "req=none"
+        } else if reqs.iter().all(|r| *r == reqs[0]) {
+            "req=same"
+        } else {
+            "req=diff"
+        };
+        let mut out = vec![res, same.to_string()];
+        out.extend(all.into_iter().map(|(_, e)| e));
+        Ok(out.join(" "))
     };
-    let mut all: Vec<(usize, String)> = time_log.lock().unwrap().clone();
-    all.extend(other_log.borrow().iter().cloned());
-    all.sort();
-    let reqs = reqs.borrow();
-    let same = if reqs.is_empty() {
-        "req=none"
-    } else if reqs.iter().all(|r| *r == reqs[0]) {
-        "req=same"
-    } else {
-        "req=diff"
+    let first = match session(req) {
+        Ok(o) => o,
+        Err(e) => return e,
     };
-    let mut out = vec![res, same.to_string()];
-    out.extend(all.into_iter().map(|(_, e)| e));
-    out.join(" ")
+    let details_after = format!("{}|{:?}|{:?}", serde_json::to_string(&details).unwrap(), details.interval(), details.expires_in());
+    if details_after != details_before {
+        return format!("response-changed-by-polling before={} after={}", tok_bytes(details_before.as_bytes()), tok_bytes(details_after.as_bytes()));
+    }
+    let second = match session(req2) {
+        Ok(o) => o,
+        Err(e) => return e,
+    };
+    if second != first {
+        return format!("second-session-from-a-clone-differs first={} second={}", tok_bytes(first.as_bytes()), tok_bytes(second.as_bytes()));
+    }
+    first
 }
 
 /// The limits of the linked chrono / std, in the units of the model (ns).
